@@ -128,6 +128,7 @@ def random_fn(rng, name, profile, helpers=(), in_module=False, forbid_names=()):
         f.deps_last = rng.random() < 0.3
     if rng.random() < P["p_const"] and not f.is_async:
         f.const_params.append(("K", "usize"))
+        f.const_first = rng.random() < 0.4
         names = pick_names(rng, 1, taken)
         taken |= set(names)
         cp = Param(TYPES["arr"], "plain", names, generic="[u8; K]")
@@ -360,7 +361,8 @@ class FnCaseBuilder:
         self.trait_generic_args = []
         for f in self.fns:
             tps = [tp[0] for tp in f.type_params]
-            self.trait_generic_args += ["i32" for _ in tps] + ["2" for _ in f.const_params]
+            ta, ca = ["i32" for _ in tps], ["2" for _ in f.const_params]
+            self.trait_generic_args += (ca + ta) if getattr(f, "const_first", False) else (ta + ca)
         for fi, f in enumerate(self.fns):
             recv_sets = [("app", "impl")]
             if f.deps_kind.startswith("concrete"):
